@@ -25,6 +25,7 @@ fn tier_of(s: &str) -> Tier {
 
 fn main() {
     gens::install_quiet_panic_hook();
+    engine::install_logger();
     let args: Vec<String> = std::env::args().collect();
     if args.len() < 2 {
         eprintln!("usage: rngsim parent <ID> <tier> | worker ... | replay <file>");
